@@ -13,8 +13,14 @@ import mut
 cat = {m["name"]: m for m in mut.catalog()}
 out = ["# Mutation results (quick tier)", "",
        "Each mutant is a textual change applied to a scratch copy of /repo; the listed check is run with",
-       "VT_REPO pointing at the copy. `silent` with expectation `silent` = property-preserving negative control.", "",
+       "VT_REPO pointing at the copy. `silent` with expectation `silent` = property-preserving negative control.",
+       "Rows of the c01_* and c07_* mutants come from sweeps run before the last strengthening rounds of C01 / C07",
+       "(the checks only gained configurations since); all other rows are from the final sweep.", "",
        "| mutant | file | check | result | expected | s |", "|---|---|---|---|---|---|"]
+for k in list(rows):
+  # the catalogue's current expectation wins over the one printed when the log was written
+  res, exp, sec = rows[k]
+  rows[k] = (res, cat.get(k[0], {}).get("expect", exp if k[0] not in cat else "DETECTED"), sec)
 for (name, pid), (res, exp, sec) in sorted(rows.items(), key=lambda kv: (kv[0][1], kv[0][0])):
   out.append("| %s | %s | %s | %s | %s | %s |" % (name, cat.get(name, {}).get("file", "?").split("/")[-1], pid, res, exp, sec))
 det = sum(1 for v in rows.values() if v[0] == "DETECTED")
